@@ -511,34 +511,27 @@ func (w *W) convert(fr *frame, ins ssa.Instruction, from, to types.Type, x Value
 				return x
 			case KInt:
 				w.curSite = w.site(fr, ins)
-				c := w.concreteInt(x, "rune to string")
 				_, fsigned := intWidth(uf.(*types.Basic))
-				var r rune
-				if fsigned {
-					v := sext(c, x.w)
-					if v < 0 || v > utf8.MaxRune {
-						r = utf8.RuneError
-					} else {
-						r = rune(v)
-					}
-				} else if c > utf8.MaxRune {
-					r = utf8.RuneError
-				} else {
-					r = rune(c)
+				t := w.intTerm(x)
+				if fsigned && t.w < 32 {
+					t = w.ts.SExt(t, 32)
 				}
-				return mkStr(string(r))
+				if fsigned && t.w > 32 {
+					// negative or too large -> RuneError (handled by the unsigned range test)
+				}
+				return mkStrFromBytes(w.encodeRune(nil, mkSymInt(t)))
 			case KSlice:
 				el := uf.(*types.Slice).Elem().Underlying().(*types.Basic)
 				if el.Kind() == types.Uint8 {
 					return mkStrFromBytes(x.slice())
 				}
 				// []rune
-				var sb strings.Builder
+				w.curSite = w.site(fr, ins)
+				var out []Value
 				for _, rv := range x.slice() {
-					c := w.concreteInt(rv, "rune slice to string")
-					sb.WriteRune(rune(int32(c)))
+					out = w.encodeRune(out, rv)
 				}
-				return mkStr(sb.String())
+				return mkStrFromBytes(out)
 			}
 		case ut.Info()&types.IsComplex != 0:
 			return x
@@ -558,10 +551,13 @@ func (w *W) convert(fr *frame, ins ssa.Instruction, from, to types.Type, x Value
 				return mkSlice(b)
 			}
 			// []rune
-			s := x.str()
+			w.curSite = w.site(fr, ins)
+			bs := strBytes(x)
 			out := []Value{}
-			for _, r := range s {
-				out = append(out, mkInt(32, uint64(uint32(r))))
+			for i := 0; i < len(bs); {
+				r, sz := w.decodeRuneAt(bs, i)
+				out = append(out, r)
+				i += sz
 			}
 			return mkSlice(out)
 		}
@@ -1027,35 +1023,17 @@ func (w *W) rangeNext(fr *frame, ins *ssa.Next, itv Value) Value {
 		if it.pos >= n {
 			return Value{k: KTuple, p: []Value{mkBool(false), mkInt(64, 0), mkInt(32, 0)}}
 		}
-		b0 := strAt(it.str, it.pos)
-		if b0.p != nil {
-			w.curSite = w.site(fr, ins)
-			if w.decideBool(w.ts.Cmp(OUlt, b0.term(), w.ts.Const(8, 0x80))) {
-				r := mkSymInt(w.ts.ZExt(b0.term(), 32))
-				i := it.pos
-				it.pos++
-				return Value{k: KTuple, p: []Value{mkBool(true), mkInt(64, uint64(i)), r}}
-			}
-			w.unsupported("range over string with symbolic non-ASCII byte")
-		}
-		// concrete lead byte: decode using concrete bytes (continuation bytes must be concrete)
-		if b0.c < 0x80 {
+		if cs, ok := it.str.p.(string); ok {
+			r, sz := utf8.DecodeRuneInString(cs[it.pos:])
 			i := it.pos
-			it.pos++
-			return Value{k: KTuple, p: []Value{mkBool(true), mkInt(64, uint64(i)), mkInt(32, b0.c)}}
+			it.pos += sz
+			return Value{k: KTuple, p: []Value{mkBool(true), mkInt(64, uint64(i)), mkInt(32, uint64(uint32(r)))}}
 		}
-		var buf []byte
-		for j := it.pos; j < n && j < it.pos+4; j++ {
-			b := strAt(it.str, j)
-			if b.p != nil {
-				w.unsupported("range over string with symbolic continuation byte")
-			}
-			buf = append(buf, byte(b.c))
-		}
-		r, sz := utf8.DecodeRune(buf)
+		w.curSite = w.site(fr, ins)
+		r, sz := w.decodeRuneAt(it.str.p.(*SymStr).b, it.pos)
 		i := it.pos
 		it.pos += sz
-		return Value{k: KTuple, p: []Value{mkBool(true), mkInt(64, uint64(i)), mkInt(32, uint64(uint32(r)))}}
+		return Value{k: KTuple, p: []Value{mkBool(true), mkInt(64, uint64(i)), r}}
 	}
 	// map
 	for len(it.rest) > 0 {
